@@ -29,6 +29,33 @@ func (c *Ctx) appendOne(v ssa.Value) (base, elem ssa.Value, ok bool) {
 	return call.Call.Args[0], lit[0], true
 }
 
+// parserInl: inlining options for reading the parser's methods: helper methods of the parser type (or
+// root-package functions taking the parser) other than the resolved roles are read in place.
+func (c *Ctx) parserInl(pr *ParserRoles) *InlineOpts {
+	keep := map[*ssa.Function]bool{}
+	for _, f := range []*ssa.Function{pr.ParseLoop, pr.ReduceM, pr.ShouldShift, pr.ShiftM, pr.TokToLit, pr.Parse} {
+		if f != nil {
+			keep[f] = true
+		}
+	}
+	return &InlineOpts{Keep: keep, Pred: func(g *ssa.Function) bool {
+		if keep[g] || fnPkgPath(g) != pkgRoot {
+			return false
+		}
+		for _, p := range g.Params {
+			t := p.Type()
+			if pt, ok := t.(*types.Pointer); ok {
+				t = pt.Elem()
+			}
+			if types.Identical(t, pr.Type) {
+				rs := g.Signature.Results()
+				return !(rs.Len() == 1 && isBool(rs.At(0).Type()))
+			}
+		}
+		return false
+	}}
+}
+
 func (c *Ctx) parserPreamble(r *Report, rule string) *ParserRoles {
 	pr := c.parserRoles()
 	if pr.Err != "" {
@@ -176,7 +203,7 @@ func rulePARPUSH(c *Ctx, r *Report) {
 			continue
 		}
 		// pop: stack[:len(stack)-1] in the reduce method
-		if sl, ok := val.(*ssa.Slice); ok && isStack && isFieldLoad(sl.X, pr.StackF) && sl.Low == nil && sl.High != nil && fs.fn == pr.ReduceM {
+		if sl, ok := val.(*ssa.Slice); ok && isStack && isFieldLoad(sl.X, pr.StackF) && sl.Low == nil && sl.High != nil && (fs.fn == pr.ReduceM || c.reachedOnlyFrom(fs.fn, pr.ReduceM, 0)) {
 			if bo, ok := sl.High.(*ssa.BinOp); ok && bo.Op == token.SUB {
 				if n, ok := constIntVal(bo.Y); ok && n == 1 {
 					r.ok(rule, fmt.Sprintf("%s|stack|pop", fnName(fs.fn)), pos, "pop one")
@@ -248,148 +275,172 @@ func rulePUSHSTATE(c *Ctx, r *Report) {
 	if pr == nil {
 		return
 	}
-	fn := pr.ParseLoop
 	lexPeek := c.method(pkgLex, "Lexer", "Peek")
-	// mutators: module functions that (transitively) store to stack/nonTerminals
-	mut := c.fieldWriters(pr.StackF, pr.NTF)
-	type state map[string]bool // nil = TOP (unvisited)
-	in := make([]state, len(fn.Blocks))
-	out := make([]state, len(fn.Blocks))
-	edgeGen := func(from *ssa.BasicBlock, succIdx int) []string {
-		iff, ok := from.Instrs[len(from.Instrs)-1].(*ssa.If)
-		if !ok {
-			return nil
-		}
-		pol := succIdx == 0
-		cond := ssa.Value(iff.Cond)
-		for {
-			if u, ok := cond.(*ssa.UnOp); ok && u.Op == token.NOT {
-				cond = u.X
-				pol = !pol
-				continue
-			}
-			break
-		}
-		call, ok := cond.(*ssa.Call)
-		if !ok || call.Call.StaticCallee() != pr.ShouldShift || !pol {
-			return nil
-		}
-		arg := call.Call.Args[len(call.Call.Args)-1]
-		return []string{c.key(arg, nil)}
-	}
-	isPeek := func(k string) bool { return lexPeek != nil && strings.Contains(k, "Peek(") }
 	type push struct {
 		st  *ssa.Store
 		tok ssa.Value
+		fn  *ssa.Function
 	}
 	var pushes []push
-	transfer := func(b *ssa.BasicBlock, s state, record bool) state {
-		cur := state{}
-		for k := range s {
-			cur[k] = true
+	// the typestate is run on the parse loop and on every other function of the package that pushes onto
+	// nonTerminals (a helper the injection was moved into); a helper starts with nothing Checked
+	var fns []*ssa.Function
+	fns = append(fns, pr.ParseLoop)
+	for _, fs := range c.storesToFields(pr.NTF) {
+		if fs.fn == pr.ParseLoop || fs.fn == pr.Parse || fnPkgPath(fs.fn) != pkgRoot {
+			continue
 		}
-		for _, ins := range b.Instrs {
-			switch x := ins.(type) {
-			case *ssa.Call:
-				if f := x.Call.StaticCallee(); f != nil && mut[f] {
-					cur = state{}
+		if _, _, ok := c.appendOne(c.resolve(fs.st.Val, nil)); !ok {
+			continue
+		}
+		dup := false
+		for _, g := range fns {
+			if g == fs.fn {
+				dup = true
+			}
+		}
+		if !dup {
+			fns = append(fns, fs.fn)
+		}
+	}
+	for _, fn := range fns {
+		fn := fn
+		// mutators: module functions that (transitively) store to stack/nonTerminals
+		mut := c.fieldWriters(pr.StackF, pr.NTF)
+		type state map[string]bool // nil = TOP (unvisited)
+		in := make([]state, len(fn.Blocks))
+		out := make([]state, len(fn.Blocks))
+		edgeGen := func(from *ssa.BasicBlock, succIdx int) []string {
+			iff, ok := from.Instrs[len(from.Instrs)-1].(*ssa.If)
+			if !ok {
+				return nil
+			}
+			pol := succIdx == 0
+			cond := ssa.Value(iff.Cond)
+			for {
+				if u, ok := cond.(*ssa.UnOp); ok && u.Op == token.NOT {
+					cond = u.X
+					pol = !pol
+					continue
 				}
-			case *ssa.Store:
-				if fa, ok := x.Addr.(*ssa.FieldAddr); ok && fieldVar(fa.X.Type(), fa.Field) == pr.NTF {
-					if _, elem, ok := c.appendOne(c.resolve(x.Val, nil)); ok {
-						tok := c.resolve(elem, nil)
-						if record {
-							k := c.key(tok, nil)
-							checked := cur[k]
-							if !checked {
-								// token obtained from the shift method ≙ the peeked token (LEX-PEEK)
-								if call, ok := tok.(*ssa.Call); ok && call.Call.StaticCallee() == pr.ShiftM {
-									for ck := range cur {
-										if isPeek(ck) {
-											checked = true
+				break
+			}
+			call, ok := cond.(*ssa.Call)
+			if !ok || call.Call.StaticCallee() != pr.ShouldShift || !pol {
+				return nil
+			}
+			arg := call.Call.Args[len(call.Call.Args)-1]
+			return []string{c.key(arg, nil)}
+		}
+		isPeek := func(k string) bool { return lexPeek != nil && strings.Contains(k, "Peek(") }
+		transfer := func(b *ssa.BasicBlock, s state, record bool) state {
+			cur := state{}
+			for k := range s {
+				cur[k] = true
+			}
+			for _, ins := range b.Instrs {
+				switch x := ins.(type) {
+				case *ssa.Call:
+					if f := x.Call.StaticCallee(); f != nil && mut[f] {
+						cur = state{}
+					}
+				case *ssa.Store:
+					if fa, ok := x.Addr.(*ssa.FieldAddr); ok && fieldVar(fa.X.Type(), fa.Field) == pr.NTF {
+						if _, elem, ok := c.appendOne(c.resolve(x.Val, nil)); ok {
+							tok := c.resolve(elem, nil)
+							if record {
+								k := c.key(tok, nil)
+								checked := cur[k]
+								if !checked {
+									// token obtained from the shift method ≙ the peeked token (LEX-PEEK)
+									if call, ok := tok.(*ssa.Call); ok && call.Call.StaticCallee() == pr.ShiftM {
+										for ck := range cur {
+											if isPeek(ck) {
+												checked = true
+											}
 										}
 									}
 								}
+								key := fmt.Sprintf("%s|push(%s)", fnName(fn), c.tokDesc(tok))
+								if checked {
+									r.ok(rule, key, c.instrPos(x), "Checked on all paths")
+								} else {
+									r.badW(rule, key, c.instrPos(x),
+										"a token is pushed onto nonTerminals on a path where the shift predicate has not (since the last reduction) said that it may be shifted: pending reductions of tighter-binding operators are skipped, so the token captures operands it should not",
+										"`NOT a:b c:d` parses as NOT(a:b AND c:d); `a:b c:d e:f` associates to the right")
+								}
+								pushes = append(pushes, push{x, tok, fn})
 							}
-							key := fmt.Sprintf("%s|push(%s)", fnName(fn), c.tokDesc(tok))
-							if checked {
-								r.ok(rule, key, c.instrPos(x), "Checked on all paths")
-							} else {
-								r.badW(rule, key, c.instrPos(x),
-									"a token is pushed onto nonTerminals on a path where the shift predicate has not (since the last reduction) said that it may be shifted: pending reductions of tighter-binding operators are skipped, so the token captures operands it should not",
-									"`NOT a:b c:d` parses as NOT(a:b AND c:d); `a:b c:d e:f` associates to the right")
-							}
-							pushes = append(pushes, push{x, tok})
+							cur = state{}
 						}
-						cur = state{}
 					}
 				}
 			}
+			return cur
 		}
-		return cur
-	}
-	// must-analysis fixpoint (intersection at joins)
-	changed := true
-	for iter := 0; changed && iter < 100; iter++ {
-		changed = false
-		for _, b := range fn.Blocks {
-			var s state
-			if b.Index == 0 {
-				s = state{}
-			} else {
-				first := true
-				for _, p := range b.Preds {
-					po := out[p.Index]
-					if po == nil {
-						continue // TOP
-					}
-					pe := state{}
-					for k := range po {
-						pe[k] = true
-					}
-					for si, succ := range p.Succs {
-						if succ == b {
-							// when both successors are b, no edge fact
-							if len(p.Succs) == 2 && p.Succs[0] == p.Succs[1] {
-								continue
+		// must-analysis fixpoint (intersection at joins)
+		changed := true
+		for iter := 0; changed && iter < 100; iter++ {
+			changed = false
+			for _, b := range fn.Blocks {
+				var s state
+				if b.Index == 0 {
+					s = state{}
+				} else {
+					first := true
+					for _, p := range b.Preds {
+						po := out[p.Index]
+						if po == nil {
+							continue // TOP
+						}
+						pe := state{}
+						for k := range po {
+							pe[k] = true
+						}
+						for si, succ := range p.Succs {
+							if succ == b {
+								// when both successors are b, no edge fact
+								if len(p.Succs) == 2 && p.Succs[0] == p.Succs[1] {
+									continue
+								}
+								for _, g := range edgeGen(p, si) {
+									pe[g] = true
+								}
 							}
-							for _, g := range edgeGen(p, si) {
-								pe[g] = true
+						}
+						if first {
+							s = pe
+							first = false
+						} else {
+							for k := range s {
+								if !pe[k] {
+									delete(s, k)
+								}
 							}
 						}
 					}
 					if first {
-						s = pe
-						first = false
-					} else {
-						for k := range s {
-							if !pe[k] {
-								delete(s, k)
-							}
+						continue
+					}
+				}
+				in[b.Index] = s
+				o := transfer(b, s, false)
+				if out[b.Index] == nil || len(out[b.Index]) != len(o) {
+					changed = true
+				} else {
+					for k := range o {
+						if !out[b.Index][k] {
+							changed = true
 						}
 					}
 				}
-				if first {
-					continue
-				}
+				out[b.Index] = o
 			}
-			in[b.Index] = s
-			o := transfer(b, s, false)
-			if out[b.Index] == nil || len(out[b.Index]) != len(o) {
-				changed = true
-			} else {
-				for k := range o {
-					if !out[b.Index][k] {
-						changed = true
-					}
-				}
-			}
-			out[b.Index] = o
 		}
-	}
-	for _, b := range fn.Blocks {
-		if in[b.Index] != nil {
-			transfer(b, in[b.Index], true)
+		for _, b := range fn.Blocks {
+			if in[b.Index] != nil {
+				transfer(b, in[b.Index], true)
+			}
 		}
 	}
 	r.floor(rule, "token push sites", len(pushes), 2)
@@ -400,7 +451,7 @@ func rulePUSHSTATE(c *Ctx, r *Report) {
 			continue
 		}
 		typ := c.localTokenTyp(p.tok)
-		key := fmt.Sprintf("%s|injected-token", fnName(fn))
+		key := fmt.Sprintf("%s|injected-token", fnName(p.fn))
 		if typ == "lex.TAnd" {
 			r.ok("IMPL-AND", key, c.instrPos(p.st), "injected token has Typ TAnd")
 		} else {
@@ -668,7 +719,7 @@ func ruleIMPLANDOPERAND(c *Ctx, r *Report) {
 	if pr == nil || pr.TokToLit == nil {
 		return
 	}
-	paths, complete := c.enumPaths(pr.ParseLoop, 20000)
+	paths, complete := c.enumPathsOpt(pr.ParseLoop, 20000, c.parserInl(pr))
 	if !complete {
 		r.bad(rule, "paths", "-", "too many paths")
 		return
